@@ -3,7 +3,7 @@
 import json, sys
 
 ENGINE_A = "Engine A: generated lexer definitions compiled by the real macro + rustc, run against an independent reference lexer"
-TRUST_A = "Trusted: rustc/cargo, proptest, unicode-width, and the oracle crate (Brzozowski-derivative reference lexer with virtual end-of-input symbol, cross-checked against a second, recursion-based reference). Definitions are well-formed by construction (no nullable rule, no empty class, `$` only in tail position)."
+TRUST_A = "Trusted: rustc/cargo, proptest, unicode-width, and the oracle crate (Brzozowski-derivative reference lexer with virtual end-of-input symbol; every run cross-checks ~6000 of its own cases against a second, recursion-based reference and exits 2 on disagreement). Definitions are well-formed by construction (no nullable rule, no empty class, `$` only in tail position). Failures are shrunk (input, script, then the definition by batch recompilation) into a replay file. Thorough tier adds a coverage-guided libFuzzer stage where noted in DESIGN.md."
 def A(tech, text, ref):
     return (tech, text, TRUST_A, ref)
 DIFF = "proptest-generated lexer definitions compiled by the real macro, proptest-generated inputs/scripts (bounded-exhaustive + reference-guided + random), differential against an independent derivative-based reference lexer"
@@ -104,7 +104,7 @@ def main():
             "add_only": True,
         },
         "engines": [
-            {"name": "orch", "path": "/verif/crates/orch", "serves_properties": sorted(CHECKS), "kind_free_text": ENGINE_A + "; Engine B: the macro pipeline in-process; Engine C: direct module harnesses; all driven by proptest strategies seeded from VERIF_SEED"},
+            {"name": "orch", "path": "/verif/crates/orch", "serves_properties": sorted(CHECKS), "kind_free_text": ENGINE_A + "; Engine B: the macro pipeline in-process (rd/pipeline); Engine C: direct module harnesses (rd/enginec); Engine D: cargo-fuzz targets (fuzz/) used by thorough tiers; all generation by proptest strategies seeded from VERIF_SEED"},
         ],
         "checks": checks,
         "not_applicable": na,
